@@ -802,3 +802,117 @@ Proof.
     unfold linv. simpl. repeat split; auto. intros d x []. }
   exact (proj1 G).
 Qed.
+
+(* ================================================================ pvMergeToLinear: refused stays, completeness *)
+
+Lemma has_key_false_intro l k : (forall d, In d l -> key d <> k) -> has_key l k = false.
+Proof.
+  intros H. destruct (has_key l k) eqn:E; [|reflexivity]. exfalso.
+  apply has_key_true_in in E. apply in_map_iff in E. destruct E as (d & Ed & Hd). exact (H d Hd Ed).
+Qed.
+
+Lemma has_key_in l d : In d l -> has_key l (key d) = true.
+Proof. intros H. apply in_has_key. apply in_map. exact H. Qed.
+
+(* what one iteration of the linear loop does to a state that satisfies the sortedness invariant *)
+Lemma lstep_spec c st x r : linv st -> l_stat st = Running -> l_rest st = x :: r ->
+  (l_stat (lstep c false st) = Failed /\ l_kept (lstep c false st) = l_kept st /\ l_rest (lstep c false st) = l_rest st /\
+   ldst_items (lstep c false st) = ldst_items st)
+  \/ (l_stat (lstep c false st) = Running /\ l_kept (lstep c false st) = l_kept st ++ [x] /\ l_rest (lstep c false st) = r /\
+      ldst_items (lstep c false st) = ldst_items st /\ has_key (ldst_items st) (key x) = true)
+  \/ (l_stat (lstep c false st) = Running /\ l_kept (lstep c false st) = l_kept st /\ l_rest (lstep c false st) = r /\
+      has_key (ldst_items st) (key x) = false /\
+      exists p q, ldst_items st = p ++ q /\ ldst_items (lstep c false st) = p ++ x :: q).
+Proof.
+  unfold linv, lstep, ldst_items. destruct st as [kept rest dpre dpost w stat shape]. simpl.
+  intros (Sd & Sr0 & C) -> ->. simpl in Sr0. destruct Sr0 as [Hx Sr].
+  destruct (advance false w x dpre dpost) as [w1 [[p q]|]] eqn:Ea; simpl; [|left; auto].
+  apply advance_unique in Ea; [|intros d Hd; apply C; [exact Hd|left; reflexivity]].
+  destruct Ea as (E & P & Q). rewrite <- E in *. apply ksorted_app in Sd. destruct Sd as (Sp & Sq & Cpq).
+  destruct q as [|d dr]; simpl.
+  - destruct (step_alloc w1) as [w3|]; simpl; [|left; auto].
+    destruct (pop shape) as [internal sh].
+    destruct (extract_reloc c w3 x (pred_of kept internal)) as [w4 [e|]] eqn:Ee; simpl; [|left; auto].
+    apply extract_reloc_value in Ee. subst e. right. right. repeat split; auto.
+    + apply has_key_false_intro. intros d Hd. rewrite app_nil_r in Hd. specialize (P d Hd). lia.
+    + exists p, []. split; [reflexivity|]. apply app_nil_r.
+  - destruct (step_func w1) as [w2|]; simpl; [|left; auto].
+    destruct (Z.ltb_spec (key x) (key d)) as [L|G]; simpl.
+    + destruct (step_alloc w2) as [w3|]; simpl; [|left; auto].
+      destruct (pop shape) as [internal sh].
+      destruct (extract_reloc c w3 x (pred_of kept internal)) as [w4 [e|]] eqn:Ee; simpl; [|left; auto].
+      apply extract_reloc_value in Ee. subst e. right. right. repeat split; auto.
+      * apply has_key_false_intro. intros e He. apply in_app_or in He. destruct He as [He|[<-|He]].
+        -- specialize (P e He). lia.
+        -- lia.
+        -- simpl in Sq. destruct Sq as [Hd _]. specialize (Hd e He). lia.
+      * exists p, (d :: dr). split; [reflexivity|]. rewrite <- app_assoc. reflexivity.
+    + right. left. repeat split; auto.
+      * rewrite <- app_assoc. reflexivity.
+      * assert (key d = key x) by lia. rewrite <- H. apply has_key_in. apply in_or_app. right. left. reflexivity.
+Qed.
+
+Lemma lrun_linv c src dst w shape n : ksorted src -> ksorted dst -> linv (lrun c false n (linit src dst w shape)).
+Proof.
+  intros Ss Sd. induction n; simpl; [|apply lstep_linv; exact IHn].
+  unfold linv. simpl. repeat split; auto. intros d x [].
+Qed.
+
+Lemma lstep_idle c multi st : l_stat st <> Running -> lstep c multi st = st.
+Proof. unfold lstep. destruct (l_stat st); [congruence|reflexivity|reflexivity]. Qed.
+
+Lemma lstep_finish c multi st : l_stat st = Running -> l_rest st = [] ->
+  l_stat (lstep c multi st) = Finished /\ l_kept (lstep c multi st) = l_kept st /\ l_rest (lstep c multi st) = [] /\
+  ldst_items (lstep c multi st) = ldst_items st.
+Proof. destruct st as [kept rest dpre dpost w stat shape]. simpl. intros -> ->. unfold lstep, ldst_items. simpl. auto. Qed.
+
+(* an item refused by the (sorted, unique-key) destination stays in the (sorted) source, at every step *)
+Theorem lmerge_refused_stays c src dst w shape n y : ksorted src -> ksorted dst ->
+  In y src -> has_key dst (key y) = true -> In y (lsrc_items (lrun c false n (linit src dst w shape))).
+Proof.
+  intros Ss Sd I K.
+  assert (G : In y (lsrc_items (lrun c false n (linit src dst w shape))) /\
+              has_key (ldst_items (lrun c false n (linit src dst w shape))) (key y) = true).
+  { induction n; simpl; [split; [exact I|exact K]|].
+    pose proof (lrun_linv c src dst w shape n Ss Sd) as Li.
+    destruct IHn as [I1 K1]. revert Li I1 K1. generalize (lrun c false n (linit src dst w shape)). intros st Li I1 K1.
+    destruct (l_stat st) eqn:Es; [|rewrite lstep_idle; [auto|congruence]|rewrite lstep_idle; [auto|congruence]].
+    destruct (l_rest st) as [|x r] eqn:Er.
+    - destruct (lstep_finish c false st Es Er) as (_ & Ek & Er' & Ed). unfold lsrc_items in *. rewrite Ek, Er', Ed. rewrite Er in I1. auto.
+    - destruct (lstep_spec c st x r Li Es Er) as [(_ & Ek & Er' & Ed)|[(_ & Ek & Er' & Ed & _)|(_ & Ek & Er' & Kx & p & q & E1 & E2)]];
+        unfold lsrc_items in *; rewrite Ek, Er'.
+      + rewrite Ed. rewrite Er in *. auto.
+      + rewrite Ed. rewrite Er in I1. split; [|exact K1]. rewrite <- app_assoc. exact I1.
+      + rewrite Er in I1. assert (y <> x) by (intros ->; congruence). split.
+        * apply in_app_or in I1. apply in_or_app. destruct I1 as [I1|[I1|I1]]; [left; exact I1|congruence|right; exact I1].
+        * rewrite E2. rewrite E1 in K1. unfold has_key in *. rewrite existsb_app in *. simpl.
+          apply orb_true_iff in K1. destruct K1 as [K1|K1]; [rewrite K1; reflexivity|rewrite K1; rewrite !orb_true_r; reflexivity]. }
+  exact (proj1 G).
+Qed.
+
+(* a linear merge that ran to completion left in the source only items whose key the destination holds *)
+Theorem lmerge_finished_complete c src dst w shape n : ksorted src -> ksorted dst ->
+  l_stat (lrun c false n (linit src dst w shape)) = Finished ->
+  l_rest (lrun c false n (linit src dst w shape)) = [] /\
+  forall y, In y (lsrc_items (lrun c false n (linit src dst w shape))) ->
+    has_key (ldst_items (lrun c false n (linit src dst w shape))) (key y) = true.
+Proof.
+  intros Ss Sd.
+  assert (G : (forall y, In y (l_kept (lrun c false n (linit src dst w shape))) ->
+                 has_key (ldst_items (lrun c false n (linit src dst w shape))) (key y) = true) /\
+              (l_stat (lrun c false n (linit src dst w shape)) = Finished -> l_rest (lrun c false n (linit src dst w shape)) = [])).
+  { induction n; simpl; [split; [intros y []|discriminate]|].
+    pose proof (lrun_linv c src dst w shape n Ss Sd) as Li.
+    destruct IHn as [D F]. revert Li D F. generalize (lrun c false n (linit src dst w shape)). intros st Li D F.
+    destruct (l_stat st) eqn:Es; [|rewrite lstep_idle; [rewrite Es; auto|congruence]|rewrite lstep_idle; [rewrite Es; split; [auto|discriminate]|congruence]].
+    destruct (l_rest st) as [|x r] eqn:Er.
+    - destruct (lstep_finish c false st Es Er) as (Ef & Ek & Er' & Ed). rewrite Ek, Er', Ed. auto.
+    - destruct (lstep_spec c st x r Li Es Er) as [(Ef & Ek & Er' & Ed)|[(Ef & Ek & Er' & Ed & Kx)|(Ef & Ek & Er' & Kx & p & q & E1 & E2)]];
+        rewrite Ek, Ef; (split; [|discriminate]).
+      + rewrite Ed. exact D.
+      + rewrite Ed. intros y Hy. apply in_app_or in Hy. destruct Hy as [Hy|[<-|[]]]; [apply D; exact Hy|exact Kx].
+      + intros y Hy. specialize (D y Hy). rewrite E2. rewrite E1 in D. unfold has_key in *. rewrite existsb_app in *. simpl.
+        apply orb_true_iff in D. destruct D as [D|D]; [rewrite D; reflexivity|rewrite D; rewrite !orb_true_r; reflexivity]. }
+  intros Hs. destruct G as [D F]. split; [exact (F Hs)|].
+  intros y I. unfold lsrc_items in I. rewrite (F Hs), app_nil_r in I. exact (D y I).
+Qed.
